@@ -20,6 +20,7 @@ import KinModel.Lemmas.C05Dec
 import KinModel.Lemmas.C05Cells
 import KinModel.Lemmas.C05Eq
 import KinModel.Lemmas.C05Nest
+import KinModel.StyleContent
 import KinModel.Gen.StyleCells
 namespace KinModel.Style
 
@@ -971,6 +972,107 @@ theorem nest_agrees_with_deep_examples :
       { query := [("zz".toList, [['1']])] } ].all
       (fun r => validateNest impl enumHitImpl np r = validateParameter dp r && validateNest spec enumHitSpec np r = validateSpec dp r) = true := by
   decide
+
+/-! ### content-described parameters (KinModel/StyleContent.lean; json.Unmarshal is the parameter `unm`) -/
+
+/-- one value under a JSON media type: a text that is JSON is decoded to its JSON value, whatever the schema says -/
+theorem content_json_value (unm : Str → Option Val) (leak : Bool) (p : CParam) (r : Req) (t : Str) (v : Val)
+    (hv : contentValues p.loc p.name r = some [t]) (hm : ∃ k, p.media = [k] ∧ mediaIsJSON k = true) (hj : unm t = some v) :
+    decodeContent unm leak p r = .val v := by
+  obtain ⟨k, hk, hkj⟩ := hm
+  simp [decodeContent, hv, hk, hkj, unmarshalC, hj]
+
+/-- a text that is not JSON is taken as the string it is — exactly when a schema is given and it is not an object
+schema; otherwise the parameter is an error -/
+theorem content_not_json (unm : Str → Option Val) (leak : Bool) (p : CParam) (r : Req) (t : Str)
+    (hv : contentValues p.loc p.name r = some [t]) (hm : ∃ k, p.media = [k] ∧ mediaIsJSON k = true) (hj : unm t = none) :
+    decodeContent unm leak p r =
+      match p.schema with
+      | some s => if schIsObject s then .err else .val (.prim (.str t))
+      | none => .err := by
+  obtain ⟨k, hk, hkj⟩ := hm
+  cases hs : p.schema with
+  | none => simp [decodeContent, hv, hk, hkj, unmarshalC, hj, hs]
+  | some s => cases ho : schIsObject s <;> simp [decodeContent, hv, hk, hkj, unmarshalC, hj, hs, ho]
+
+/-- several values are an error everywhere but in the query; the `content` map must hold exactly one JSON-like key -/
+theorem content_structural_errors (unm : Str → Option Val) (leak : Bool) (p : CParam) (r : Req) (vs : List Str)
+    (hv : contentValues p.loc p.name r = some vs)
+    (h : (1 < vs.length ∧ p.loc ≠ .query) ∨ p.media.length ≠ 1 ∨ p.media.all mediaIsJSON = false) :
+    decodeContent unm leak p r = .err := by
+  unfold decodeContent
+  rw [hv]
+  rcases h with ⟨h1, h2⟩ | h | h
+  · have : decide (vs.length > 1) = true := by simpa using h1
+    simp [this, h2]
+  · by_cases h1 : (decide (vs.length > 1) && decide (p.loc ≠ .query)) = true
+    · simp only [h1, if_true]
+    · simp only [h1, if_false, Bool.false_eq_true]
+      simp [h]
+  · by_cases h1 : (decide (vs.length > 1) && decide (p.loc ≠ .query)) = true
+    · simp only [h1, if_true]
+    · by_cases h2 : p.media.length ≠ 1
+      · simp [h1, h2]
+      · simp [h1, h2, h]
+
+/-- the decision after decoding: null is an empty value (rejected unless allowEmptyValue), no schema accepts, otherwise
+the schema decides -/
+theorem content_decision (unm : Str → Option Val) (visit : Sch → Val → Bool) (sentinel : Bool) (p : CParam) (r : Req) (v : Val)
+    (h : decodeContent unm (!sentinel) p r = .val v) :
+    validateContent unm visit sentinel p r =
+      if v.isNilValue then (if p.allowEmpty then .accept else .empty)
+      else match p.schema with
+        | none => .accept
+        | some s => if visit s v then .accept else .schema := by
+  unfold validateContent
+  rw [h]
+  cases hn : v.isNilValue <;> cases ha : p.allowEmpty <;> cases p.schema <;> simp [hn, ha]
+
+/-- code = specification for content-described parameters outside ContentMissing and ContentCookieAbsent -/
+theorem content_flavour_partial (unm : Str → Option Val) (visit : Sch → Val → Bool) (p : CParam) (r : Req)
+    (h9 : ContentMissing p r = false) (h10 : ContentCookieAbsent p r = false) :
+    validateContent unm visit false p r = validateContent unm visit true p r := by
+  cases hv : contentValues p.loc p.name r with
+  | some vs =>
+    have hsame : decodeContent unm (!false) p r = decodeContent unm (!true) p r := by
+      unfold decodeContent; rw [hv]
+    have hnm : decodeContent unm (!true) p r ≠ .missingErr := by
+      unfold decodeContent; rw [hv]
+      simp only
+      repeat' split
+      all_goals simp
+    unfold validateContent
+    rw [hsame]
+    cases hd : decodeContent unm (!true) p r with
+    | missingErr => exact absurd hd hnm
+    | absent => rfl
+    | err => rfl
+    | val v => rfl
+  | none =>
+    unfold validateContent decodeContent
+    rw [hv]
+    have hreq : p.required = false := by simpa [ContentMissing, hv] using h9
+    have hck : p.loc ≠ .cookie := by
+      intro e
+      have hc : r.cookie = none := by
+        cases hcv : r.cookie with
+        | none => rfl
+        | some s => simp [contentValues, e, hcv] at hv
+      simp [ContentCookieAbsent, hreq, e, hc] at h10
+    simp [hreq, hck]
+
+/-- F-C05-9 (ContentMissing) and F-C05-10 (ContentCookieAbsent), whatever json.Unmarshal does: a required content
+parameter that is absent is an unspecific error, not `missing`; an optional content *cookie* that is absent is an error
+(the leaked http.ErrNoCookie), while the same parameter in the query is accepted -/
+theorem content_witnesses (unm : Str → Option Val) (visit : Sch → Val → Bool) :
+    let pq : CParam := ⟨.query, ['p'], true, false, ["application/json".toList], some (.leaf (.prim { t := .integer }))⟩
+    let pc : CParam := ⟨.cookie, ['p'], false, false, ["application/json".toList], some (.leaf (.prim { t := .integer }))⟩
+    let pq2 : CParam := ⟨.query, ['p'], false, false, ["application/json".toList], some (.leaf (.prim { t := .integer }))⟩
+    let r : Req := { query := [("zz".toList, [['1']])] }
+    ContentMissing pq r = true ∧ validateContent unm visit false pq r = .other ∧ validateContent unm visit true pq r = .missing ∧
+    ContentCookieAbsent pc r = true ∧ validateContent unm visit false pc r = .other ∧ validateContent unm visit true pc r = .accept ∧
+    validateContent unm visit false pq2 r = .accept := by
+  simp [ContentMissing, ContentCookieAbsent, validateContent, decodeContent, contentValues, qLookup]
 
 /-! ### where the code and the specification part (exclusion classes), and that they part nowhere else -/
 
